@@ -98,6 +98,7 @@ func check(c Case) (r pbt.Result) {
 	}
 	branches := map[string]bool{}
 	st := append([]float64(nil), c.State0...)
+	stepOut := make([][]float64, len(desc.Outputs)) // outputs of the steps taken one at a time
 	var sumIn, sumOut, sumSink float64
 	stored0, runScale := 0.0, 0.0
 	first := true
@@ -109,6 +110,9 @@ func check(c Case) (r pbt.Result) {
 		prev := append([]float64(nil), st...)
 		out, fin := simref.Run1(name, c.A.Cell, step, append([]float64(nil), st...))
 		st = fin
+		for k := range stepOut {
+			stepOut[k] = append(stepOut[k], out[k][0])
+		}
 		o := func(n string) float64 { return out[simref.OutputIndex(desc, n)][0] }
 		var dt, inM, outM, sink, storedPrev, storedNow, workingVol float64
 		flushModel := false
@@ -248,6 +252,12 @@ func check(c Case) (r pbt.Result) {
 			}
 		}
 		scale := math.Abs(storedPrev) + math.Abs(inM) + math.Abs(outM) + math.Abs(sink) + math.Abs(storedNow)
+		// a stored total can be the sum of large parts of opposite sign (the particulate-nutrient channel store goes
+		// negative when the remobilisation signal asks for more than it holds, by the model's own comment): round-off
+		// then scales with the parts, not with their sum
+		for j := range fin {
+			scale += math.Abs(prev[j]) + math.Abs(fin[j])
+		}
 		// round-off left over from earlier, larger steps stays in the stored mass: sign checks use the largest magnitude so far
 		if scale > runScale {
 			runScale = scale
@@ -319,6 +329,35 @@ func check(c Case) (r pbt.Result) {
 		r.Failf("%s: whole-run budget open: %v + %v != %v + %v + %v", name, stored0, sumIn, sumOut, sumSink, final)
 		return
 	}
+	// "over any period": the budget above was established step by step; the same series in ONE call must deliver
+	// the same loads and final stores (a kernel that works through a long series in blocks is only seen here)
+	if T > 1 {
+		whole, wfin := simref.Run1(name, c.A.Cell, c.A.Inputs, append([]float64(nil), c.State0...))
+		for k := range whole {
+			sc := 0.0
+			for _, v := range stepOut[k] {
+				if a := math.Abs(v); a > sc && !math.IsInf(v, 0) {
+					sc = a
+				}
+			}
+			for t := 0; t < T; t++ {
+				a, b := whole[k][t], stepOut[k][t]
+				if a != b && !(math.Abs(a-b) <= 1e-9*math.Max(math.Abs(a), math.Abs(b))+1e-12*sc+1e-9*runScale*1e-6) {
+					r.Failf("%s: output %s[t=%d] = %v when the %d steps are run in one call, %v when they are run one at a time", name, desc.Outputs[k], t, a, T, b)
+					return
+				}
+			}
+		}
+		for j := range wfin {
+			if a, b := wfin[j], st[j]; a != b && !(math.Abs(a-b) <= 1e-9*math.Max(math.Abs(a), math.Abs(b))+1e-9*(1+runScale)*1e-3) {
+				r.Failf("%s: final state %d = %v when the %d steps are run in one call, %v when they are run one at a time", name, j, a, T, b)
+				return
+			}
+		}
+		if T >= 1023 {
+			r.Label("long-series(>=1023 steps in one call)")
+		}
+	}
 	for b := range branches {
 		r.Label(name + ":" + b)
 	}
@@ -337,6 +376,53 @@ func stepVals(s [][]float64) []float64 {
 var _ = fmt.Sprint
 
 func TestMassConserved(t *testing.T) { pbt.Run(t, genFor(""), check) }
+
+// Series lengths just past a power of two, once per model and branch, every run (the drawn cases meet a long series
+// only now and then): examples of the ordinary generator at a fixed seed with the length forced.
+func TestLongSeriesBoundaries(t *testing.T) {
+	if pbt.ReplayDirect(t, check) {
+		return
+	}
+	if sh, _ := pbt.Shard(); sh != 0 {
+		t.Skip("enumeration runs in shard 0 only")
+	}
+	for mi, name := range models {
+		for _, T := range []int{1025, 4097, 5000} {
+			for variant := 0; variant < 2; variant++ {
+				name, T, variant := name, T, variant
+				c := rapid.Custom(func(rt *rapid.T) Case {
+					c := genFor(name)(rt)
+					desc := simref.New(name).Description()
+					c.A.Inputs = simref.DrawInputs(rt, name, c.A.Cell, T)
+					// every series positive and different from step to step at the drawn magnitude: a drawn series
+					// can be zero or constant over thousands of steps, which would hide what happens past a block
+					for i, sr := range c.A.Inputs {
+						top := 0.0
+						for _, v := range sr {
+							if v > top {
+								top = v
+							}
+						}
+						if top == 0 {
+							top = 1
+						}
+						for k := range sr {
+							sr[k] = top * (1 + float64((k*(i+3))%7)) / 7
+						}
+					}
+					if name == "InstreamFineSediment" {
+						// both branches of the model at this length
+						c.A.Cell[simref.ParamIndex(desc, "bankFullFlow")] = []float64{float64(variant) * 10}
+					}
+					return c
+				}).Example(mi*100 + T + variant)
+				if !pbt.Direct(t, c, check) {
+					return
+				}
+			}
+		}
+	}
+}
 
 func TestMassConservedPerModel(t *testing.T) {
 	if pbt.ReplayOnly() {
